@@ -10,6 +10,7 @@ import (
 	"reflect"
 	"strings"
 	"sync"
+	"syscall"
 	"unicode/utf8"
 
 	"verifharness/drv"
@@ -102,7 +103,7 @@ func stripDir(v any, dir string) any {
 func C18(r *drv.Run) {
 	r.BuildWorker()
 	r.BuildCLI()
-	r.Rule = "the built vore binary in scratch directories over the cross product {-com, -src} x 5 file sets (one file, several by glob, none matching, a glob with the star in the middle of a name, a glob into a sub-directory) x {none, -json, -formatted-json} x {-json-file} x {-formatted-json-file} x {default, NEW, NOTHING, OVERWRITE} x {-no-output} x {find, replace, two statements, failing program} (thorough: all 3 840; quick: a seed-selected 400) plus 14 invalid invocations and 19 unknown mode names (other letter cases, near misses, the engine's internal fourth mode CONFIRM, numbers, lists) each with a find and a replace program; a quarter of the invocations with the -files pattern made absolute, two thirds with their flag groups in a seed-chosen order and spelling (-flag value, --flag value, -flag=value). Oracle: exit status; stdout under -json/-formatted-json is exactly one JSON document equal (after decoding) to the library's result for the same program and files, computed by a worker through RunFiles; the named JSON files likewise; replace mode honoured with NEW as default and outputs equal to the splice (directory snapshot before/after); invalid invocations, unknown modes and compile errors exit non-zero with a message and an empty snapshot diff. Non-trivial = invocation with >= 1 match whose JSON/stdout/file effects were all verified; distinct by configuration."
+	r.Rule = "the built vore binary in scratch directories over the cross product {-com, -src} x 5 file sets (one file, several by glob, none matching, a glob with the star in the middle of a name, a glob into a sub-directory) x {none, -json, -formatted-json} x {-json-file} x {-formatted-json-file} x {default, NEW, NOTHING, OVERWRITE} x {-no-output} x {find, replace, two statements, failing program} (thorough: all 3 840; quick: a seed-selected 400) plus 14 invalid invocations and 19 unknown mode names (other letter cases, near misses, the engine's internal fourth mode CONFIRM, numbers, lists) each with a find and a replace program; a fifth of the -src invocations with the program arriving through a named pipe, a third of the invocations with longer JSON output files left over from an earlier run, a quarter with the -files pattern made absolute, two thirds with their flag groups in a seed-chosen order and spelling (-flag value, --flag value, -flag=value). Oracle: exit status; stdout under -json/-formatted-json is exactly one JSON document equal (after decoding) to the library's result for the same program and files, computed by a worker through RunFiles; the named JSON files likewise; replace mode honoured with NEW as default and outputs equal to the splice (directory snapshot before/after); invalid invocations, unknown modes and compile errors exit non-zero with a message and an empty snapshot diff. Non-trivial = invocation with >= 1 match whose JSON/stdout/file effects were all verified; distinct by configuration."
 	r.Assumptions = []string{
 		"with -no-output only exit status and file effects of the replace mode are demanded (the documentation does not say whether JSON files are still written)",
 		"zero matches / no files: exit 0 and no JSON demanded (the property's 'when there is at least one match')",
@@ -232,6 +233,13 @@ func c18Run(r *drv.Run, i int, cfg c18Config, lib []wire.Match, libStr [][]wire.
 	defer os.RemoveAll(dir)
 	prog := c18Progs[cfg.prog]
 	fs := c18FileSets[cfg.fileset]
+	if i%3 == 1 {
+		// output files left over from an earlier, longer run: what the tool writes replaces them entirely
+		stale := strings.Repeat("[{\"stale\": \"from an earlier run\"}, 1, 2, 3]\n", 400)
+		os.WriteFile(filepath.Join(dir, "out.json"), []byte(stale), 0o644)
+		os.WriteFile(filepath.Join(dir, "out.formatted.json"), []byte(stale), 0o600)
+		r.Count("invocations_with_stale_json_outputs", 1)
+	}
 	var args []string
 	if cfg.viaSrc {
 		body := prog.src
@@ -240,7 +248,18 @@ func c18Run(r *drv.Run, i int, cfg c18Config, lib []wire.Match, libStr [][]wire.
 			body = "--(" + strings.Repeat("c", 4096-8-len(prog.src)/2) + ")--\n" + prog.src
 			r.Count("src_files_over_4096_bytes", 1)
 		}
-		os.WriteFile(filepath.Join(dir, "prog.vore"), []byte(body), 0o644)
+		if i%5 == 4 && syscall.Mkfifo(filepath.Join(dir, "prog.vore"), 0o644) == nil {
+			// the program arrives through a named pipe (what `-src <(generator)` gives the tool): Stat says size 0
+			go func(p string, data []byte) {
+				if f, err := os.OpenFile(p, os.O_WRONLY, 0); err == nil {
+					f.Write(data)
+					f.Close()
+				}
+			}(filepath.Join(dir, "prog.vore"), []byte(body))
+			r.Count("src_through_a_named_pipe", 1)
+		} else {
+			os.WriteFile(filepath.Join(dir, "prog.vore"), []byte(body), 0o644)
+		}
 		args = append(args, "-src", "prog.vore")
 	} else {
 		args = append(args, "-com", prog.src)
